@@ -285,6 +285,7 @@ func runC05(c *Ctx) {
 	r.Rule("locked", "table mutations hold the session mutex for writing", 8)
 	r.Rule("pairing", "creation and deletion keep index, link and list together", 9)
 	r.Rule("online", "MAC entry online flag follows its hosts", 2)
+	runC05Holders(c)
 
 	lib := c.P.LibFunctions()
 	an := locks.Analyse(c.P, lib, isConstructor)
@@ -824,4 +825,125 @@ func reachesWithoutPassing(a, b ssa.Instruction) bool {
 		return false
 	}
 	return !reachesWithout(a, b, unl)
+}
+
+// runC05Holders: table entries are reachable only through the tables. A *MACEntry or *Host kept in any other
+// struct field, map or slice is an alias that deleteHost / MACTable.delete cannot clear: after the entry is
+// removed the alias still hands it out (a one-entry lookup cache is the typical case). The places that may hold
+// such pointers are a frozen table; per-packet carriers (Frame.Host) are listed with the reason.
+func runC05Holders(c *Ctx) {
+	r := c.R
+	r.Rule("holders", "pointers to table entries are stored only in the tables and their links", 5)
+	allowed := map[string]string{
+		"*packet.MACEntry -> packet.Host.MACEntry":    "the host's link to its MAC entry (cleared with the host)",
+		"*packet.MACEntry -> packet.MACTable.Table[]": "the MAC table itself",
+		"*packet.Host -> packet.HostTable.Table[]":    "the host index itself",
+		"*packet.Host -> packet.MACEntry.HostList[]":  "the MAC entry's list of its hosts (unlink removes it)",
+		"*packet.Host -> packet.Frame.Host":           "per-packet carrier, lives for one Parse/ProcessPacket/Notify round",
+		"*packet.MACEntry -> packet.Result.HuntStage": "",
+	}
+	delete(allowed, "*packet.MACEntry -> packet.Result.HuntStage")
+	isEntry := func(t types.Type) string {
+		pt, ok := t.(*types.Pointer)
+		if !ok {
+			return ""
+		}
+		nt, ok := pt.Elem().(*types.Named)
+		if !ok || nt.Obj().Pkg() == nil || nt.Obj().Pkg().Path() != core.ModPath {
+			return ""
+		}
+		if n := nt.Obj().Name(); n == "MACEntry" || n == "Host" {
+			return "*packet." + n
+		}
+		return ""
+	}
+	// destination description for an address / container value
+	var dest func(v ssa.Value, depth int) string
+	dest = func(v ssa.Value, depth int) string {
+		if depth > 4 {
+			return ""
+		}
+		switch t := v.(type) {
+		case *ssa.FieldAddr:
+			if al, ok := t.X.(*ssa.Alloc); ok && !al.Heap {
+				return "" // a local struct value
+			}
+			return fieldOwner(t)
+		case *ssa.IndexAddr:
+			if d := dest(t.X, depth+1); d != "" {
+				return d + "[]"
+			}
+		case *ssa.UnOp:
+			return dest(t.X, depth+1)
+		case *ssa.Slice:
+			return dest(t.X, depth+1)
+		case *ssa.Field:
+			return ""
+		}
+		return ""
+	}
+	kg := core.NewKeyGen()
+	for _, fn := range c.P.LibFunctions() {
+		core.EachInstr(fn, func(i ssa.Instruction) {
+			var val ssa.Value
+			where := ""
+			switch t := i.(type) {
+			case *ssa.Store:
+				val = t.Val
+				where = dest(t.Addr, 0)
+			case *ssa.MapUpdate:
+				val = t.Value
+				if d := dest(t.Map, 0); d != "" {
+					where = d + "[]"
+				}
+			case *ssa.Call:
+				// append(field, entry)
+				if b, ok := t.Call.Value.(*ssa.Builtin); ok && b.Name() == "append" && len(t.Call.Args) == 2 {
+					if sl, ok := t.Call.Args[1].(*ssa.Slice); ok {
+						if al, ok := sl.X.(*ssa.Alloc); ok {
+							// varargs array: its element stores
+							if refs := al.Referrers(); refs != nil {
+								for _, rf := range *refs {
+									if ia, ok := rf.(*ssa.IndexAddr); ok && ia.Referrers() != nil {
+										for _, rr := range *ia.Referrers() {
+											if st, ok := rr.(*ssa.Store); ok && isEntry(st.Val.Type()) != "" {
+												val = st.Val
+											}
+										}
+									}
+								}
+							}
+						}
+					}
+					if val != nil {
+						if d := dest(t.Call.Args[0], 0); d != "" {
+							where = d + "[]"
+						} else {
+							val = nil
+						}
+					}
+				}
+			}
+			if val == nil || where == "" {
+				return
+			}
+			kind := isEntry(val.Type())
+			if kind == "" {
+				return
+			}
+			// a nil constant clears a holder
+			if k, ok := val.(*ssa.Const); ok && k.Value == nil {
+				return
+			}
+			desc := kind + " -> " + where
+			st := core.Proved
+			reason, ok := allowed[desc]
+			if !ok {
+				st = core.Violated
+			}
+			key := strings.TrimSuffix(kg.Key("holders "+desc+" in "+core.FuncName(fn)), "#0")
+			r.Add(core.Obligation{Rule: "holders", Key: key, Func: core.FuncName(fn), Pos: c.P.Pos(core.PosOf(i)), Status: st, Basis: reason,
+				Detail: "a pointer to a table entry is kept in " + where + ", which deleteHost / MACTable.delete do not clear: after the entry is removed from the table this alias still refers to it (lookups through it return an entry that is no longer tracked)"})
+		})
+	}
 }
